@@ -38,6 +38,7 @@ func Validate(namespaces []*Namespace) (*Environment, error) {
 		topologicalSortTypes,
 		validateMaps, // follows aliases of key types: only after reference cycles have been ruled out
 		convertGenericReferences,
+		validateMapsOfGenericInstances,
 		validateUnionCases,
 		validateEnums,
 		resolveComputedFields,
